@@ -191,7 +191,7 @@ export function checkParser({ rep, stats, parser, parserName, spec, refProg, vx,
     }
     if (pf) fail(`parsed data is not a projection of the input [${oname}]: ${pf}`, "projection");
     if (spec && again === true) {
-      const nu = noUndeclared(refProg, spec, d);
+      const nu = noUndeclared(refProg, spec, d, 64, { unionMerge: true });
       if (nu !== IN && nu !== DC) fail(`parsed data ${canon(d).slice(0, 80)} carries a key the type does not declare [${oname}]`, "declared-only");
     }
     // idempotence
@@ -222,7 +222,7 @@ export async function run() {
   const stats = { evaluations: 0, parsers: 0, bParsers: 0 };
   const outcomes = new Set();
   const samples = [];
-  const progs = familyPrograms();
+  const progs = familyPrograms({ light: true });
   await forEachCompiledParser(progs, async ({ name, parser, spec, spec0, refProg, U, text }) => {
     stats.parsers++;
     const skel = skeleton(spec0, refProg);
